@@ -409,6 +409,19 @@ func OracleC12() *Oracle {
 				case inc.IsPositive() && dT.Equal(dec.Neg()):
 					mech = "committed_amount_not_added_to_total"
 				}
+				if mech == "other" && (t.Op.Kind == "multi_msg_tx" || t.Op.Kind == "same_block") {
+					// one account committed AND uncommitted in this block: the per-account NET changes hide the gross
+					// amounts. Under the known mechanism (every uncommitted amount ADDED to the total) dT = C + U and
+					// dS = C − U for gross commits C and gross uncommits U, so both are determined by dT and dS; the
+					// mechanism is recognised only if they are whole, and at least the visible net amounts
+					diff, sum := dT.Sub(dS), dT.Add(dS)
+					if diff.IsPositive() && diff.ModRaw(2).IsZero() && sum.ModRaw(2).IsZero() {
+						u, c := diff.QuoRaw(2), sum.QuoRaw(2)
+						if u.GTE(dec) && c.GTE(inc) && !c.IsNegative() && u.GT(dec) {
+							mech = "every_uncommitted_amount_added_to_total"
+						}
+					}
+				}
 				out = append(out, Finding{Clause: "total_committed", Disc: "denom=" + denomClass(d) + ",mech=" + mech,
 					Detail: fmt.Sprintf("denom %s: TotalCommitted changed by %s but the accounts' committed amounts changed by %s (commits +%s, uncommits -%s) in op %s", d, dT, dS, inc, dec, t.Op.Name)})
 			}
